@@ -16,6 +16,14 @@ aliases <i> <id>                            -> <i> [k,..]
 len <i>                                     -> <i> <n>
 dump <i>                                    -> <i> <digest over every id/key mentioned since reset>
 bcast <i> <raw|json|beve|utf8> <path> <fmt> <body>  -> <i> sent <id/tag:path:fmt:body,..> res <id=r,..>
+peers <i>                                   -> <i> [id/tag,..]            (PeerRegistry::peers, sorted)
+isempty <i>                                 -> <i> T|F
+mint <i>                                    -> <i> <id>                   (PeerRegistry::next_peer_id)
+hsend <i> <id> <beve|json|utf8|raw> <path> <fmt> <body>  -> <i> none | <i> <id/tag:path:fmt:body> <result>   (get(id) then PeerHandle::send_notify)
+hconn <i> <id>                              -> <i> none|T|F               (PeerHandle::is_connected)
+dbg <i> <id>  |  dbgreg <i>                 -> <i> PeerHandle{peer_id:PeerId(N)}|none  /  PeerRegistry{len:N}
+ctx <i> new <id> <method> | ctx <i> detached <method>  -> <i> <method> <id/tag|-> <is_cancelled T|F> <cancelled() pending|ready> | none
+bcastfail <i> <json|beve> <path>            -> <i> err sent -             (encoder error: nothing is sent)
 enum <i> <depth> <fold> <prefix|->          -> one line per sequence `<i> <path> <ret> <digest> [h=<hash>]`
 conc <i> <setup|-> <t1> <t2> .. :: <outcome> ..     -> <i> ok <n> | <i> NONLIN <outcome>
 ```
@@ -33,6 +41,7 @@ structure St where
   behs : List (Nat × Beh) := []      -- sink tag ↦ behaviour
   ids : List Nat := []               -- universe mentioned since reset (sorted, no duplicates)
   keys : List Key := []
+  counter : Nat := 0                 -- the registry's id counter (`next_peer_id`)
 
 def insSorted {α} (lt : α → α → Bool) (x : α) : List α → List α
   | [] => [x]
@@ -184,7 +193,7 @@ def step (st : St) (ws : List String) : St × String :=
   match ws with
   | ["mode", "debug"] => ({ st with debug := true }, "")
   | ["mode", "release"] => ({ st with debug := false }, "")
-  | ["reset", i] => ({ debug := st.debug }, i ++ " ok")
+  | ["reset", i] => ({ debug := st.debug }, i ++ " ok")   -- a new registry: empty maps, counter 0
   | ["ins", i, id, tag, beh] =>
     match id.toNat?, tag.toNat?, parseBeh beh with
     | some id, some tag, some b =>
@@ -221,10 +230,16 @@ def step (st : St) (ws : List String) : St × String :=
     if srcOpt.length > 1 then (st, i ++ " bad-op") else
     match fmt.toNat?, bytesOfHex body with
     | some fmt, some body =>
-      -- the four public helpers differ only in the format tag they attach
-      let fmt' := if variant = "json" then 2 else if variant = "beve" then 1 else if variant = "utf8" then 3 else fmt
-      if variant ≠ "raw" ∧ variant ≠ "json" ∧ variant ≠ "beve" ∧ variant ≠ "utf8" then (st, i ++ " bad-op") else
-      let r := broadcast st.s path fmt' body (answerOf st.behs)
+      -- the four public entry points: encode once, then `broadcast_each`
+      let hlp? : Option Helper :=
+        if variant = "json" then some .json else if variant = "beve" then some .beve
+        else if variant = "utf8" then some .utf8 else if variant = "raw" then some (.raw fmt) else none
+      match hlp? with
+      | none => (st, i ++ " bad-op")
+      | some hlp =>
+      match broadcastNotify st.s hlp path (some body) (answerOf st.behs) with
+      | none => (st, i ++ " bad-op")
+      | some r =>
       let ds := sortBy (fun (a b : Delivery) => a.to.id < b.to.id) r.1
       let rs := sortBy (fun (a b : Nat × SendResult) => a.1 < b.1) r.2
       let out := i ++ " sent " ++ (if ds.isEmpty then "-" else ",".intercalate (ds.map fun d =>
@@ -238,6 +253,73 @@ def step (st : St) (ws : List String) : St × String :=
         | _ => s) st.s
       ({ st with s := s' }, out)
     | _, _ => (st, i ++ " bad-op")
+  | ["peers", i] =>
+    let hs := sortBy (fun (a b : Handle) => a.id < b.id) (snapshot st.s)
+    (st, i ++ " [" ++ ",".intercalate (hs.map fun h => showHandle (some h)) ++ "]")
+  | ["isempty", i] => (st, i ++ (if isEmpty st.s then " T" else " F"))
+  | ["mint", i] =>
+    let r := nextPeerId st.counter
+    ({ st with counter := r.1 }, i ++ (if nextPeerIdPanics st.counter st.debug then " PANIC" else " " ++ toString r.2))
+  | ["hsend", i, id, variant, path, fmt, body] =>
+    match id.toNat?, fmt.toNat?, bytesOfHex body with
+    | some id, some fmt, some body =>
+      let nb? : Option NotifyBody :=
+        if variant = "beve" then some (.beve body) else if variant = "json" then some (.json body)
+        else if variant = "utf8" then some (.utf8 body) else if variant = "raw" then some (.raw body fmt) else none
+      match nb? with
+      | none => (st, i ++ " bad-op")
+      | some nb =>
+        match get st.s id with
+        | none => (note st [id] [], i ++ " none")
+        | some h =>
+          let r := h.sendNotify (answerOf st.behs) path nb
+          let s' := match lookup h.tag st.behs with
+            | some (.rem x) => (remove st.s x).1
+            | _ => st.s
+          (note { st with s := s' } [id] [], i ++ " " ++ showHandle (some r.1.to) ++ ":" ++ r.1.path ++ ":" ++
+            toString r.1.fmt ++ ":" ++ hexOfBytes r.1.body ++ " " ++ showRes r.2)
+    | _, _, _ => (st, i ++ " bad-op")
+  | ["hconn", i, id] =>
+    match id.toNat? with
+    | some id =>
+      match get st.s id with
+      | none => (note st [id] [], i ++ " none")
+      | some h =>
+        let conn := fun (h : Handle) => match lookup h.tag st.behs with
+          | some (.ans .disconnected) => false
+          | _ => true
+        (note st [id] [], i ++ (if h.isConnected conn then " T" else " F"))
+    | none => (st, i ++ " bad-op")
+  | ["dbg", i, id] =>
+    match id.toNat? with
+    | some id =>
+      match get st.s id with
+      | none => (note st [id] [], i ++ " none")
+      | some h => (note st [id] [], i ++ " PeerHandle{peer_id:PeerId(" ++ toString h.id ++ ")}")
+    | none => (st, i ++ " bad-op")
+  | ["dbgreg", i] => (st, i ++ " PeerRegistry{len:" ++ toString (len st.s) ++ "}")
+  | ["ctx", i, "detached", m] =>
+    let c := CallContext.detached m
+    (st, joinSp [i, c.method, showHandle c.peer, if c.isCancelled then "T" else "F",
+                 if c.cancelledResolves then "ready" else "pending"])
+  | ["ctx", i, "new", id, m] =>
+    match id.toNat? with
+    | some id =>
+      match get st.s id with
+      | none => (note st [id] [], i ++ " none")
+      | some h =>
+        let c := CallContext.new m h
+        (note st [id] [], joinSp [i, c.method, showHandle c.peer, if c.isCancelled then "T" else "F",
+                     if c.cancelledResolves then "ready" else "pending"])
+    | none => (st, i ++ " bad-op")
+  | ["bcastfail", i, variant, path] =>
+    let hlp? : Option Helper := if variant = "json" then some .json else if variant = "beve" then some .beve else none
+    match hlp? with
+    | some hlp =>
+      match broadcastNotify st.s hlp path none (answerOf st.behs) with
+      | none => (st, i ++ " err sent -")
+      | some _ => (st, i ++ " bad-op")
+    | none => (st, i ++ " bad-op")
   | ["enum", i, depth, fold, prefix_] =>
     match depth.toNat?, fold.toNat?, eopsOfString prefix_ with
     | some depth, some fold, some pre =>
